@@ -616,11 +616,12 @@ def run(ctx):
 
 
 BREAKS = """
-Genuine defects found on the unchanged tree (all four reproduce on seeds 0..4, both tiers); proposed fixes, not applied,
-in /verif/proposed_fixes/; with the three diffs applied in a scratch worktree the check is silent on seeds 0..4:
+Genuine defects found on the unchanged tree (reproduce on seeds 0..4, both tiers); proposed fixes, not applied, in
+/verif/proposed_fixes/; with all fixes applied in a scratch worktree the check is silent on seeds 0..4:
   cores/cpu-string-float-truncated           cpu '1001m' / '1.001' / '32001m': parse_cpu_in_mcpu -> 1000 (float 1.001*1000 =
-        1000.9999999999999 truncated), passes is_valid_cores_mcpu and is granted 1000 mcpu < the 1001 mcpu asked (it should be
-        rejected as not a power of two).                        C12-cpu-string-float-truncated.diff
+        1000.9999999999999 truncated), passed is_valid_cores_mcpu and was granted 1000 mcpu < the 1001 mcpu asked (it should be
+        rejected as not a power of two).  Same mechanism as the C25 finding; FIXED in /repo by 2c563cbbc (exact decimal parsing) -
+        the key disappeared from this check after that commit (1.2e6 handler calls per thorough run).
   crash/pool-worker-cores-not-power-of-two   a pool whose worker_cores is 96 (gcp) / 20, 48, 72 (azure) - all offered by
         possible_cores_from_worker_type to the pool config page - makes every cpu/memory request on the cheapest-pool branch die
         in InstanceConfig.quantified_resources `assert is_power_two(self.cores)` (HTTP 500) although a pool could hold it.
@@ -629,7 +630,7 @@ in /verif/proposed_fixes/; with the three diffs applied in a scratch worktree th
   crash/empty-machine-type-string            resources {'machine_type': ''} passes the schema, skips the `if machine_type and`
         guards, and reaches `assert machine_type and ...` in select_inst_coll (HTTP 500).  C12-empty-machine-type-string.diff
 
-Breaks applied one at a time on top of the three fixes (VERIF_REPO=/tmp/scratch-bp ./check C12, quick tier); all caught:
+Breaks applied one at a time on top of the fixes (VERIF_REPO=/tmp/scratch-bp ./check C12, quick tier); all caught:
   DESIGN  math.floor for ceil in gcp_adjust_cores_for_memory_request       memory/granted-below-request
   DESIGN  same in azure_adjust_cores_for_memory_request                    memory/granted-below-request
   DESIGN  `<` for `<=` in PoolConfig.convert_requests_to_resources         reject/satisfiable-request-rejected(-cheapest/-worker-type)
